@@ -108,6 +108,7 @@ class C17Check:
         # a hang without a time limit is only a fair workload if somebody will cancel it
         forced_shutdown = shut_kind in ("nowait", "registry", "callback", "nowait+wait", "wait||nowait", "signal")
         sig_steps = ch.choose([ch.pick(40, "sig_steps.a"), ch.pick(400, "sig_steps.b")], "sig_steps")
+        sig_second = ch.choose([None, None, ch.pick(40, "sig_second.d")], "sig_second")
         for jb in jobs:
             if jb["dur"] == INF and jb["timeout"] is None and not forced_shutdown:
                 jb["timeout"] = 10.0
@@ -313,6 +314,9 @@ class C17Check:
 
             if shut_kind == "signal":
                 sim.set_interrupt("client0", sig_steps, on_signal)
+                if sig_second is not None:
+                    # an impatient second Ctrl-C: it can land while the first handler is still shutting down
+                    sim.set_interrupt("client0", sig_steps + sig_second, on_signal)
             sim.run(main)
 
             # ---------------- oracles over the recorded history
